@@ -50,50 +50,26 @@ type c16Run struct {
 	callLens   []int // buffer length of every intercepted call (0 = a Truncate call)
 	hits       int
 	file       []byte
-	cut        int // harness kind 4: number of calls issued when the first partial section was abandoned (-1: never)
 }
 
 // fsizeLimit > 0 (blockstore only, empty script): the first finalize operation runs the library's
 // own method under RLIMIT_FSIZE = fsizeLimit, so the *os.File itself cuts the write crossing that
 // offset short and fails it.
 func c16RunImpl(work string, kind uint64, o wOpts, roots []cid.Cid, faults []int, ops VL, fsizeLimit int64) c16Run {
-	cut := -1
 	x := &storeExtra{
 		fsizeLimit: fsizeLimit,
 		afterStep:  func(s *storeSession) []Val { return []Val{VN(s.indexCount())} },
-		afterStep2: func(s *storeSession, tag string, out Val, changed bool) {
-			if cut < 0 && changed && (tag == "put" || tag == "putmany") && s.ff != nil {
-				if l, ok := out.(VL); ok && len(l) > 0 && l[0] == VT("err") {
-					cut = len(s.ff.lens)
-				}
-			}
-		},
 	}
 	obs := runStoreImplX(work, kind, o, roots, faults, ops, x)
 	var file []byte
 	if l, ok := obs.(VL); ok && len(l) == 3 {
 		file = []byte(l[2].(VB))
 	}
-	return c16Run{obs, x.callOffs, x.finalizeAt, x.callLens, x.hits, file, cut}
+	return c16Run{obs, x.callOffs, x.finalizeAt, x.callLens, x.hits, file}
 }
 
-// Harness kind 4 is storage on a WriterAt WITHOUT a Truncate method.  In the model that is kind 2
-// with a script in which the Truncate of the rewind fails: the library issues no call there (the
-// type assertion fails), the model consumes one entry, so the input script gets a fault inserted at
-// that point (after it the store refuses everything, no entry is consumed any more).  A marker
-// makes a replay use the same writer again.
-func c16Input(kind uint64, o wOpts, roots []cid.Cid, faults []int, ops VL, real Val, cut int) Val {
-	if kind == 4 {
-		eff := append([]int(nil), faults...)
-		if cut >= 0 {
-			for len(eff) < cut {
-				eff = append(eff, -1)
-			}
-			eff = append(eff[:cut:cut], append([]int{0}, eff[cut:]...)...)
-		}
-		in := storeInput(2, o, roots, eff, ops).(VL)
-		return append(in, real, VT("notrunc"))
-	}
+// Harness kind 4 (storage on a WriterAt WITHOUT a Truncate method, CARv1 and CARv2) is model kind 4.
+func c16Input(kind uint64, o wOpts, roots []cid.Cid, faults []int, ops VL, real Val) Val {
 	in := storeInput(kind, o, roots, faults, ops).(VL)
 	return append(in, real)
 }
@@ -178,20 +154,14 @@ func c16Script(n, i, k int) []int {
 func init() {
 	replay := func(c *Ctx, in Val) Val {
 		l := in.(VL)
-		kind := uint64(l[0].(VN))
-		if len(l) > 7 {
-			if t, ok := l[7].(VT); ok && t == "notrunc" {
-				kind = 4
-			}
-		}
-		return c16Replay(c.Work, kind, l)
+		return c16Replay(c.Work, uint64(l[0].(VN)), l)
 	}
 	registerReplay("fault", replay)
 
 	register("c16", func(c *Ctx) {
 		emit := func(kind uint64, o wOpts, roots []cid.Cid, faults []int, ops VL, tag string) {
 			fr := c16RunImpl(c.Work, kind, o, roots, faults, ops, 0)
-			in := c16Input(kind, o, roots, faults, ops, c16RealVerdict(fr.file), fr.cut)
+			in := c16Input(kind, o, roots, faults, ops, c16RealVerdict(fr.file))
 			// non-trivial: an injected fault actually hit a write (or truncate) call of the session
 			c.Emit("fault", in, fr.obs, fr.hits > 0)
 			c.Count(tag)
@@ -248,7 +218,7 @@ func init() {
 								limit := base.callOffs[t] + int64(k)
 								script := c16Script(n, first+t, k)
 								fr := c16RunImpl(c.Work, kind, o, roots, nil, ops, limit)
-								in := append(c16Input(kind, o, roots, script, ops, c16RealVerdict(fr.file), -1).(VL),
+								in := append(c16Input(kind, o, roots, script, ops, c16RealVerdict(fr.file)).(VL),
 									VL{VT("fsize"), VN(uint64(limit))})
 								c.Emit("fault", in, fr.obs, true)
 								c.Count("exhaustive:finalize-fault-own-method")
